@@ -430,6 +430,10 @@ NODE_SNIPPETS = {
     'sum_start_source': 'sum(([r for r in m] for x in m), orders)', 'sum_start_var': 'sum(([r for r in m] for o in orders), m)', 'sum_start_len': 'len(sum(([r for r in orders] for x in m), orders))',
     'sum_start_row_list': 'sum(([r for r in m] for o in orders), [r for r in orders])', 'concat_sources': 'orders + orders', 'concat_var_source': 'm + orders', 'mul_source': 'orders * 2',
     'sum_start_str': 'sum((r.item for r in orders), "")', 'max_default_source': 'max([], orders)', 'next_default_source': 'next((r for r in orders if False), orders)',
+    # a loop variable read AFTER its generator / comprehension has finished is unknown again (never a placeholder object)
+    'loopvar_after_gen': 'trim(o) if sum(o.amount for o in orders) > 0 else ""', 'loopvar_after_all': 'o if all(o.amount > 0 for o in orders) else ""',
+    'loopvar_after_any': 'any(r.qty == 99 for r in orders) or r', 'loopvar_after_comp': 'len([r for r in orders]) and r', 'loopvar_after_next': 'next((r for r in orders), 0) and r.item',
+    'loopvar_after_min': 'min(r.amount for r in orders) and lowercase(r)', 'loopvar_shadow_restored': '[amount for amount in orders] and amount',
     'row_date_compare': '[r for r in orders if r.date > "2024-01-01"]', 'date_in': 'date in ["2024-03-05"]', 'date_bad': 'date > "not-a-date"', 'month_compare': 'month == "3"',
 }
 for _name in dir(ast):
